@@ -137,15 +137,12 @@ def audit(prop):
     allowed = {"propext", "Classical.choice", "Quot.sound"}
     res = {}
     cur = None
-    text = p.stdout.replace("\n  ", " ")
-    for line in text.splitlines():
-        m = re.match(r"'(.+)' depends on axioms: \[(.*)\]", line)
-        m2 = re.match(r"'(.+)' does not depend on any axioms", line)
-        if m:
-            axs = [a.strip() for a in m.group(2).split(",") if a.strip()]
-            res[m.group(1)] = axs
-        elif m2:
-            res[m2.group(1)] = []
+    # long names make Lean wrap the axiom list over several lines: match across line breaks
+    text = p.stdout
+    for m in re.finditer(r"'([^']+)' depends on axioms: \[([^\]]*)\]", text):
+        res[m.group(1)] = [a.strip() for a in m.group(2).replace("\n", " ").split(",") if a.strip()]
+    for m2 in re.finditer(r"'([^']+)' does not depend on any axioms", text):
+        res[m2.group(1)] = []
     missing = [n for n in names if (prefix + n) not in res]
     if missing:
         raise Problem("audit", "no axiom report for: %s\n%s" % (missing, p.stdout[-2000:]))
